@@ -273,7 +273,7 @@ pub fn panic_msg(p: &Box<dyn std::any::Any + Send>) -> String {
 
 /// Earliest deadline among armed timers (model), None if none.
 fn model_next_deadline(st: &St) -> Option<u64> {
-    let mut best: Option<u64> = None;
+    let mut best: Option<u64> = st.hidden_timers.iter().filter(|h| !h.1).map(|h| h.0).min();
     for s in st.srcs.values() {
         if !(s.inserted && s.enabled) {
             continue;
@@ -290,6 +290,9 @@ fn model_next_deadline(st: &St) -> Option<u64> {
 }
 
 fn any_indeterminate_timer(st: &St) -> bool {
+    if st.hidden_unknown {
+        return true;
+    }
     if st.srcs.values().any(|s| matches!(&s.k, K::Comp(k) if k.children.iter().any(|c| matches!(c, crate::composite::ChildM::Timer { .. })))) {
         return true;
     }
@@ -324,6 +327,7 @@ fn after_dispatch(sim: &Rc<Sim>, t: Timeout, ok: bool, err: Option<String>, t_st
     if sim.is_dead() {
         return;
     }
+    crate::exec::hidden_after_dispatch(sim, ok, waits.first().map(|w| w.t_leave).unwrap_or(t_end));
     crate::exec::after_dispatch(sim, ok);
     if sim.is_dead() {
         return;
@@ -901,7 +905,15 @@ pub fn check_counts(sim: &Sim, during: Option<Id>) {
                     &["C16", "C06", "C15", "C01"]
                 }
             } else if seen[i] > s.exp[i] {
-                &["C07"]
+                // an unrequested unregistration silences the source (its pending readiness is
+                // never dispatched again); after a failed dispatch it also shows that the error
+                // did not leave the other sources alone
+                match (i == 2, st.any_dispatch_error) {
+                    (true, true) => &["C07", "C02", "C15"],
+                    (true, false) => &["C07", "C02"],
+                    (false, true) => &["C07", "C15"],
+                    (false, false) => &["C07"],
+                }
             } else {
                 &[]
             };
@@ -969,7 +981,13 @@ pub fn pe_begin(id: Id, _key: usize) -> bool {
         hit
     };
     let mut st = sim.st.borrow_mut();
+    let mut after_remove = false;
     if let Some(s) = st.srcs.get_mut(&id) {
+        // the loop never hands an event to a source that is no longer in it (a source that
+        // removed itself during this very event aside)
+        if !s.inserted && s.token.is_some() && !s.removed_in_own_cb && !s.indeterminate && s.in_processing <= 1 && s.deferred.is_none() {
+            after_remove = true;
+        }
         s.pe_this_dispatch += 1;
         match &mut s.k {
             K::Ping(p) => {
@@ -995,6 +1013,10 @@ pub fn pe_begin(id: Id, _key: usize) -> bool {
             // the source never saw the event: whatever it had pending is in an unknown state
             s.indeterminate = true;
         }
+    }
+    drop(st);
+    if after_remove {
+        sim.violate("dispatch.event_after_remove", vec![], format!("process_events of source {} was called although the source had been removed from the loop before this event", id));
     }
     injected
 }
@@ -1090,8 +1112,8 @@ fn step_invariants(sim: &Rc<Sim>, p: &Program, i: usize) {
     // loop statistics against the model
     let (h, live, any_indet) = {
         let st = sim.st.borrow();
-        let live = st.srcs.values().filter(|s| s.inserted).count() + st.live_adapters;
-        (st.handle.clone(), live, st.srcs.values().any(|s| s.indeterminate) || st.adapters_indeterminate > 0)
+        let live = st.srcs.values().filter(|s| s.inserted).count() + st.live_adapters + st.hidden_timers.iter().filter(|h| !h.1).count();
+        (st.handle.clone(), live, st.srcs.values().any(|s| s.indeterminate) || st.adapters_indeterminate > 0 || st.hidden_unknown)
     };
     if let Some(h) = h {
         let stats = h.verif_stats();
@@ -1120,7 +1142,7 @@ fn step_invariants(sim: &Rc<Sim>, p: &Program, i: usize) {
         let st = sim.st.borrow();
         let armed = st.srcs.values().filter(|s| s.inserted && s.enabled && matches!(&s.k, K::Timer(t) if t.armed)).count();
         let live_timers = st.srcs.values().filter(|s| matches!(&s.k, K::Timer(_)) && (s.inserted || s.indeterminate)).count();
-        let extra = st.extra_timer_entries;
+        let extra = st.extra_timer_entries + st.hidden_timers.iter().filter(|h| !h.1).count();
         drop(st);
         let comp_timers = sim.st.borrow().srcs.values().filter_map(|s| if let K::Comp(k) = &s.k { Some(k.children.iter().filter(|c| matches!(c, crate::composite::ChildM::Timer { .. })).count()) } else { None }).sum::<usize>();
         let trans_timers = comp_timers + sim.st.borrow().srcs.values().filter_map(|s| if let K::Trans(t) = &s.k { Some(t.children.iter().filter(|c| c.is_timer).count()) } else { None }).sum::<usize>();
